@@ -63,6 +63,10 @@ def case_strategy(draw):
     if draw(st.booleans()):
         topo["lock"] = {"kind": draw(st.sampled_from(["switch", "switch", "entrance"])),
                         "cap": draw(st.integers(1, 3))}
+        if topo["lock"]["kind"] == "entrance":
+            # two entrance lanes and an ignore window: a ball that rattles on its lane's switch counts once
+            topo["lock"]["lanes"] = draw(st.sampled_from([1, 2, 2]))
+            topo["lock"]["window_ms"] = draw(st.sampled_from([0, 300, 300]))
     # the lock may be a VUK to an upper playfield (balls come back to the main playfield through a transfer switch)
     topo["upper"] = bool(topo["lock"]) and topo["lock"]["kind"] == "switch" and draw(st.booleans())
     devs = ["bd_trough", "bd_launcher"] + (["bd_lock"] if topo["lock"] else []) + (["bd_vuk"] if topo["vuk"] else [])
@@ -82,7 +86,7 @@ def case_strategy(draw):
     ]
     if topo["lock"]:
         ops += [st.tuples(st.just("lock_shot"), st.sampled_from([50, 400, 1500])).map(list)] * 4
-        ops += [st.just(["knock"])]
+        ops += [st.just(["knock"]), st.just(["lock_pair"])]
     if topo["upper"]:
         ops += [st.just(["upper_exit"])] * 3 + [st.just(["pfu_hit"])]
     if topo["launcher"]["mechanical"]:
@@ -232,7 +236,10 @@ def build_config(topo):
         if k["kind"] == "switch":
             lock["ball_switches"] = ", ".join("s_k%d" % i for i in range(1, k["cap"] + 1))
         else:
-            lock.update({"entrance_switch": "s_k_ent", "ball_capacity": k["cap"]})
+            lock.update({"entrance_switch": "s_k_ent, s_k_ent2" if k.get("lanes", 1) == 2 else "s_k_ent",
+                         "ball_capacity": k["cap"]})
+            if k.get("window_ms"):
+                lock["entrance_switch_ignore_window_ms"] = k["window_ms"]
     if lock and topo.get("upper"):
         lock.update({"eject_targets": "playfield_upper", "ball_missing_target": "playfield_upper",
                      "target_on_unexpected_ball": "playfield_upper"})
@@ -278,6 +285,9 @@ class Dev:
         self.leaving = False       # a ball is physically on its way out (between pulse and leave)
         self.next_entry = 0.0      # serialises arrivals on an entrance switch
         self.ent_held = False
+        self.window = 0.0          # entrance_switch_ignore_window_ms of an entrance-counted lock
+        self.lane_next = {}        # lane switch -> time from which the next ball may pass it
+        self.lane_rr = 0
 
 
 class World:
@@ -330,7 +340,9 @@ class World:
                                            ["s_k%d" % i for i in range(1, k["cap"] + 1)], "c_lock",
                                            "playfield_upper" if topo.get("upper") else "playfield", 0)
             else:
-                self.devs["bd_lock"] = Dev("bd_lock", "entrance", k["cap"], ["s_k_ent"], "c_lock", "playfield", 0)
+                self.devs["bd_lock"] = Dev("bd_lock", "entrance", k["cap"],
+                                           ["s_k_ent", "s_k_ent2"][:k.get("lanes", 1)], "c_lock", "playfield", 0)
+                self.devs["bd_lock"].window = k.get("window_ms", 0) / 1000.0
         self.drain_dev = "bd_outhole" if t["outhole"] else "bd_trough"
         # watch the platform drivers
         for d in self.devs.values():
@@ -389,11 +401,17 @@ class World:
             self._sync(d)
         else:
             full = d.content == d.cap and d.name == "bd_trough"
-            self.sw(d.switches[0], 1)
+            lane = getattr(d, "entry_lane", None) or d.switches[0]
+            self.sw(lane, 1)
             if full:
                 d.ent_held = True          # the last ball rests on the entrance switch (Gottlieb style)
             else:
-                self.later(0.06, self.sw, d.switches[0], 0)
+                self.later(0.06, self.sw, lane, 0)
+                if d.window >= 0.25:
+                    # the ball rattles: it hits the switch of its lane again inside that lane's ignore window
+                    self.classes.add("ball rattled on its entrance switch inside the ignore window")
+                    self.later(0.15, self.sw, lane, 1)
+                    self.later(0.21, self.sw, lane, 0)
 
     def _leave(self, d):
         self.changes += 1
@@ -442,11 +460,26 @@ class World:
         if d.kind == "entrance":
             # two balls cannot pass the same entrance switch at once: keep them one recycle apart
             t = self.now()
-            if t < d.next_entry:
-                self.transit_to[dst] += 1
-                self.later(d.next_entry - t, self.arrive, dst, src, by_eject)
-                return
-            d.next_entry = t + 0.4
+            if len(d.switches) > 1:
+                # several lanes: the ball takes the next lane; two balls on one lane stay one recycle apart, balls on
+                # different lanes only 0.2 s (inside each other's ignore window)
+                lane = d.switches[d.lane_rr % len(d.switches)]
+                wait = max(d.lane_next.get(lane, 0.0), d.next_entry - 0.2) - t
+                if wait > 0:
+                    self.transit_to[dst] += 1
+                    self.later(wait, self.arrive, dst, src, by_eject)
+                    return
+                d.lane_rr += 1
+                d.lane_next[lane] = t + 0.4
+                d.next_entry = t + 0.4
+                d.entry_lane = lane
+            else:
+                if t < d.next_entry:
+                    self.transit_to[dst] += 1
+                    self.later(d.next_entry - t, self.arrive, dst, src, by_eject)
+                    return
+                d.next_entry = t + 0.4
+                d.entry_lane = d.switches[0]
         if by_eject:
             self.delivered[dst] += 1
         self._enter(d, returning=(src == dst))
@@ -922,6 +955,11 @@ def run(case, focus=None):
                     w.classes.add("two drains in close succession")
             elif kind == "lock_shot":
                 applied = w.lock_shot(op[1])
+            elif kind == "lock_pair":
+                # two balls reach the lock almost together (on different lanes if it has two)
+                applied = w.lock_shot(50)
+                if applied and w.lock_shot(60):
+                    w.classes.add("two balls into the lock in close succession")
             elif kind == "pf_hit":
                 applied = w.loose > 0
                 w.pf_hit()
